@@ -56,6 +56,9 @@ ValidIffGetters == Valid(obj) <=> \A c \in IClaims : \A r \in GetterRets(obj, c)
 ValidThenMandatoryGettersOK == Valid(obj) => \A c \in Mandatory(obj.p) : \A r \in GetterRets(obj, c) : r.ok
 \* an error always carries exactly one class, and it is a sentinel class
 ErrorsClassified == ~ret.ok => Cardinality(ret.cls) = 1 /\ ret.cls \subseteq ErrClasses
+\* (ret is not part of the VIEW the bounded instances use, and TLC evaluates state invariants on new view-distinct
+\* states only: predicates about what the last call returned are therefore checked as action properties, on every step)
+ErrorsClassifiedStep == [][ErrorsClassified']_cvars
 \* every mandatory claim set successfully (nothing decoded, list not cleared) => the set validates
 MandatorySetImpliesValid == (\A c \in Mandatory(obj.p) : "missingMandatory" \notin StatusSet(obj, c)) => Valid(obj)
 View == obj
